@@ -257,6 +257,40 @@ def stream_setters(rng, tier):
     return out
 
 
+def stream_setter_pairs(rng, tier):
+    """every setter: every ordered pair (previous argument, new argument) for enumerated /
+    boolean arguments, boundary pairs for numeric ones - 'every prior content' of the setter's
+    own field (an encoder that ORs a code into a field it has not cleared shows only here)"""
+    out = []
+    n = 0
+    for b in BUILDERS:
+        pre = []
+        if b == 'int':
+            pre = ['gen1 src:1', 'gen2 src:1', 'act src:1', 'acc odr:4']
+        for name, tys in SETTERS[b]:
+            if b == 'acc' and name == 'odr':
+                pre2 = []
+            else:
+                pre2 = pre
+            t = tys[0]
+            if len(tys) == 1:
+                vals = all_values(t) if (t == 'b' or t[0] == 'e') else BOUND[t]
+                argsets = [[v] for v in vals]
+            elif t == 'b':
+                argsets = [[(k >> 0) & 1, (k >> 1) & 1, (k >> 2) & 1] for k in range(8)]
+            else:
+                bs = BOUND[t][::3]
+                argsets = [[v, v, v] for v in bs] + [[bs[0], bs[-1], bs[len(bs) // 2]]]
+            for a0 in argsets:
+                ops = list(pre2)
+                for a1 in argsets:
+                    ops.append('%s %s' % (b, setter_tok(name, a0)))
+                    ops.append('%s %s' % (b, setter_tok(name, a1)))
+                out.append(case('sq%d' % n, 'i2c', ops))
+                n += 1
+    return out
+
+
 def stream_getters(rng, tier):
     """single-byte registers: all 256 values; multi-byte: per byte lane exhaustive + random"""
     out = []
@@ -328,6 +362,9 @@ def stream_accel(rng, tier):
                 ops.append('reset')
             elif r < 0.8:
                 ops.append('selftest !%d' % rng.randrange(20))
+            elif r < 0.86:
+                # a reset cut by a bus error: raw index 0 = the command write, 1 = the event read
+                ops.append('reset !%d' % rng.randrange(2))
             else:
                 ops.append(rand_request(rng))
             ops.append('data')
@@ -583,6 +620,18 @@ def stream_selftest(rng, tier):
                     out.append(case('t%d' % n, rng.choice(['i2c', 'spi']), pre + ['selftest', rand_request(rng)],
                                     'pos=%s neg=%s low=%s' % (hexs(pb), hexs(nb), rand_low(rng))))
                     n += 1
+    # an aborted test, reconfiguration, a later complete test (which must restore the LATER configuration)
+    for i in range(150 if tier == 'quick' else 3000):
+        pre = reach_state(rng)
+        mid = ['acc scale:%d osr:%d odr:%d' % (rng.randrange(4), rng.randrange(4), rng.choice([2, 3, 5, 6])),
+               'int drdy:%d step:%d' % (rng.randrange(2), rng.randrange(2)), rand_request(rng, 'fifo'), rand_request(rng)]
+        rng.shuffle(mid)
+        ops = pre + ['selftest !%d' % rng.randrange(13)] + mid[:rng.randint(1, 4)] + ['selftest', 'data']
+        if rng.random() < 0.3:
+            ops += ['selftest !%d' % rng.randrange(13), 'selftest']
+        out.append(case('t%d' % n, 'i2c', ops,
+                        'pos=%s neg=%s low=%s' % (hexs(sample6(rng, True)), hexs(sample6(rng, False)), rand_low(rng))))
+        n += 1
     for i in range(150 if tier == 'quick' else 5000):
         pre = reach_state(rng)
         out.append(case('t%d' % n, rng.choice(['i2c', 'spi']), pre + ['selftest', 'data', rand_request(rng)],
@@ -651,7 +700,7 @@ def rand_op(rng):
     if r < 0.8:
         return rng.choice(GETTERS)
     if r < 0.86:
-        return 'rfifo:%d' % rng.choice([0, 1, 2, 15, 64])
+        return 'rfifo:%d' % rng.choice([0, 1, 2, 15, 64, 255, 256, 300, 1030])
     return rng.choice(['flush', 'clrsteps', 'selftest', 'reset'])
 
 
@@ -679,7 +728,7 @@ def stream_reset(rng, tier):
 
 
 def catalogue_ops(rng):
-    ops = list(GETTERS) + ['flush', 'clrsteps', 'rfifo:0', 'rfifo:1', 'rfifo:7', 'rfifo:64', 'rfifo:1024',
+    ops = list(GETTERS) + ['flush', 'clrsteps', 'rfifo:0', 'rfifo:1', 'rfifo:7', 'rfifo:64', 'rfifo:255', 'rfifo:256', 'rfifo:1024', 'rfifo:1030',
                            'selftest', 'reset']
     return ops
 
@@ -696,6 +745,29 @@ def stream_catalogue(rng, tier, ctors=('i2c', 'spi', 'spi3')):
             hdr = 'low=%s pos=%s neg=%s fifo=%s' % (rand_low(rng), hexs(sample6(rng, True)), hexs(sample6(rng, False)),
                                                   hexs([rng.randrange(256) for _ in range(64)]))
             out.append(case('k%d' % n, ctor, ops + rest, hdr))
+            n += 1
+    return out
+
+
+def stream_catalogue_faults(rng, tier, ctors):
+    """operations cut by a failing raw operation (data or, over SPI, chip-select pin), each
+    followed by further fault-free operations: the framing of the LATER calls must not depend
+    on an earlier failure"""
+    out = []
+    n = 0
+    for ctor in ctors:
+        for i in range(120 if tier == 'quick' else 3000):
+            ops = reach_state(rng, rich=False) if rng.random() < 0.4 else []
+            for _ in range(rng.randint(2, 8)):
+                op = rand_op(rng)
+                if rng.random() < 0.4:
+                    op += ' !%d' % rng.randrange(4 if ctor == 'i2c' else 9)
+                ops.append(op)
+                if rng.random() < 0.5:
+                    ops.append(rng.choice(GETTERS))
+            hdr = 'low=%s pos=%s neg=%s fifo=%s' % (rand_low(rng), hexs(sample6(rng, True)), hexs(sample6(rng, False)),
+                                                  hexs([rng.randrange(256) for _ in range(20)]))
+            out.append(case('kf%d' % n, ctor, ops, hdr))
             n += 1
     return out
 
@@ -759,13 +831,15 @@ def stream_fifo_guard(rng, tier):
                 ops.append('selftest')
             elif r < 0.74:
                 ops.append('selftest !%d' % rng.randrange(18))
-            elif r < 0.82:
+            elif r < 0.8:
                 ops.append('reset')
+            elif r < 0.85:
+                ops.append('reset !%d' % rng.randrange(2))
             elif r < 0.9:
                 ops.append(rng.choice(['flush', 'clrsteps']))
             else:
                 ops.append(rand_request(rng))
-            ops.append('rfifo:%d' % rng.choice([0, 1, 2, 15, 33]))
+            ops.append('rfifo:%d' % rng.choice([0, 1, 2, 15, 33, 33, 255, 256, 257, 1024, 1025, 1030, 2000]))
         hdr = 'pos=%s neg=%s fifo=%s' % (hexs(sample6(rng, True)), hexs(sample6(rng, False)),
                                          hexs([rng.randrange(256) for _ in range(33)]))
         out.append(case('p%d' % i, ctor_for(rng, ops), ops, hdr))
@@ -819,14 +893,14 @@ def stream_faults_from(base_cases, base_obs, rng, tier, recover=True, data_only=
     return out
 
 
-def fault_bases(rng, tier):
+def fault_bases(rng, tier, builders_only=False):
     """fault-free base cases whose last operation gets a fault at every position"""
     out = []
     n = 0
     for ctor in ('i2c', 'spi'):
         for i in range(25 if tier == 'quick' else 300):
-            for last in [rand_request(rng, b, 5) for b in BUILDERS] + ['selftest', 'reset', 'data', 'rfifo:5', 'flush', 'status',
-                                                                      'pin int1:%d tap:3 actch:1 step:2 wkup:1 gen1:1 drdy:1 fwm:3' % rng.randrange(4)]:
+            for last in [rand_request(rng, b, 5) for b in BUILDERS] + ([] if builders_only else ['selftest', 'reset', 'data', 'rfifo:5', 'rfifo:300', 'flush', 'status',
+                                                                      'pin int1:%d tap:3 actch:1 step:2 wkup:1 gen1:1 drdy:1 fwm:3' % rng.randrange(4)]):
                 ops = reach_state(rng)
                 hdr = 'low=%s pos=%s neg=%s' % (rand_low(rng), hexs(sample6(rng, True)), hexs(sample6(rng, False)))
                 out.append(case('eb%d' % n, ctor, ops + [last], hdr))
